@@ -616,7 +616,7 @@ class Inliner:
             out[h.params[0]] = ast.Name(id="self", ctx=ast.Load())
         return out
 
-    def _instantiate(self, h, call, caller):
+    def _instantiate(self, h, call, caller, assign_target=None):
         """(prelude stmts, body stmts, return expr | None) or None"""
         binding = self._bind(h, call)
         if binding is None:
@@ -624,12 +624,24 @@ class Inliner:
         stmts, ret = h.stmts if h.stmts is not None else ([], h.expr)
         body_nodes = list(stmts) + ([ret] if ret is not None else [])
         stored = set(_stored_names(body_nodes))
+        # x = helper(x, ...) where the helper re-binds its parameter and
+        # returns it: the parameter IS x (no copy is needed, and the rules
+        # keep seeing the updates on x)
+        same_var = set()
+        if assign_target is not None and isinstance(ret, ast.Name):
+            for p_, a_ in binding.items():
+                if p_ == ret.id and isinstance(a_, ast.Name) and \
+                        a_.id == assign_target and p_ in stored:
+                    same_var.add(p_)
         caller_names = _all_names(caller) | {
             a.arg for a in caller.args.args + caller.args.kwonlyargs}
         prelude = []
         mapping = {}
         rename = {}
         for p, a in binding.items():
+            if p in same_var:
+                rename[p] = a.id
+                continue
             if _simple(a) and p not in stored:
                 mapping[p] = a
             else:
@@ -737,7 +749,13 @@ class Inliner:
                 h = self._resolve(call, chain, cls)
                 if h is not None and h.ok and h.stmts is not None and \
                         not h.gen and h.node is not caller:
-                    inst = self._instantiate(h, call, caller)
+                    tgt = None
+                    if kind == "assign" and isinstance(
+                            st, ast.Assign) and len(st.targets) == 1 and \
+                            isinstance(st.targets[0], ast.Name):
+                        tgt = st.targets[0].id
+                    inst = self._instantiate(h, call, caller,
+                                             assign_target=tgt)
                     if inst is not None:
                         prelude, nb, ret = inst
                         # arguments of the call may contain helper calls
@@ -751,7 +769,9 @@ class Inliner:
                         elif kind == "assign":
                             st.value = ret if ret is not None else \
                                 ast.Constant(value=None)
-                            new.append(st)
+                            if not (tgt is not None and isinstance(
+                                    ret, ast.Name) and ret.id == tgt):
+                                new.append(st)      # (not  x = x)
                         else:
                             st.value = ret
                             new.append(st)
